@@ -8,6 +8,7 @@ from __future__ import annotations
 from hypothesis import strategies as st
 
 from vlib import gen_maps, pipeline
+from vlib import scale
 from vlib.core import Sub, req
 from vlib.oracles import valid_matching
 
@@ -43,6 +44,12 @@ def check_record(rec, run, suf, where):
     R, Q = run.refs[rid], run.queries[qid]
     ori = rec["Orientation"]
     pairs = rec["pairs"]
+    if pairs:
+        # the clauses below speak of "the first and last listed reference labels" and "the two outermost aligned query labels":
+        # an end label that is no label of the input map (number outside 1..n) has no coordinate the fields could agree with
+        for what, num, n in (("first listed reference", pairs[0][0], R["n"]), ("last listed reference", pairs[-1][0], R["n"]),
+                             ("lowest listed query", min(q for _, q in pairs), Q["n"]), ("highest listed query", max(q for _, q in pairs), Q["n"])):
+            req(1 <= num <= n, "end-label-not-in-input-map", f"{where}: {what} label is number {num}, the input map has labels 1..{n}")
     if not valid_matching(pairs, ori, R["n"], Q["n"]):
         return "skipped-invalid-matching(C01)"
     reflen = fnum(rec, "RefLen", where)
@@ -146,4 +153,7 @@ def subchecks(tier):
                 describe="every record of every file vs harness maps", sample_filter=gen_maps.short_case,
                 required_classes=("second-pass-reverse", "offset-query", "reverse-record")),
             Sub("many-records", "hyp", check_many_records, strategy=many_records_strategy, examples=48 if q else 800, shrink_budget=6,
-                describe="999-4097 records written by XmapReader.writeAlignments: XmapEntryID 1,2,3,...")]
+                describe="999-4097 records written by XmapReader.writeAlignments: XmapEntryID 1,2,3,..."),
+            Sub("huge-reference", "hyp", check, strategy=lambda: scale.huge_reference_case(straddle=False), examples=1 if q else 16, shrink_budget=0, skip_first=True,
+                shards=1 if q else 16, sample_filter=scale.short, time_budget_s=3000,
+                describe="a reference of 33 000-36 000 labels (label numbers above 32 767), molecules below, across and above that number")]
